@@ -22,6 +22,8 @@ func init() {
 	cli.Register("c16-keepalive", keepaliveCmd)
 	cli.Register("c16-blackhole", blackholeCmd)
 	cli.Register("c16-largeset", largesetCmd)
+	cli.Register("c16-kinds", kindsCmd)
+	cli.Register("c16-latestart", latestartCmd)
 }
 
 // The silent kind of stream failure (Discovery.tla SilentFail / KeepaliveDetect).  Here the client is
@@ -392,4 +394,242 @@ func largesetCmd(args []string) error {
 	}
 	w.srv.mu.Unlock()
 	return wr.Write(res)
+}
+
+// ---- the real server ends streams with every status code the client can observe
+
+type kindsResult struct {
+	Name      string         `json:"name"`
+	Kind      string         `json:"kind"`
+	Target    string         `json:"target"` // service | dependency
+	DeadlineS float64        `json:"deadline_s"`
+	Recovered bool           `json:"recovered"`
+	ElapsedS  float64        `json:"elapsed_s"`
+	Streams   map[string]int `json:"streams"`
+	Missing   []string       `json:"missing"`
+	Err       string         `json:"err,omitempty"`
+}
+
+func kindsCmd(args []string) error {
+	fs := flag.NewFlagSet("c16-kinds", flag.ContinueOnError)
+	out := fs.String("out", "", "results (ndjson)")
+	list := fs.String("kinds", "Canceled,Unavailable", "comma separated kinds")
+	dl := fs.Duration("deadline", 10*time.Second, "deadline for new streams to carry the set")
+	confirm := fs.Duration("confirm", 25*time.Second, "how long to keep waiting before 'never' is reported")
+	if err := fs.Parse(args); err != nil {
+		return err
+	}
+	wr, err := cli.NewNDJSONWriter(*out)
+	if err != nil {
+		return err
+	}
+	defer wr.Close()
+	var kinds []string
+	for _, k := range splitComma(*list) {
+		kinds = append(kinds, k)
+	}
+	type job struct{ kind, target string }
+	var jobs []job
+	for _, k := range kinds {
+		jobs = append(jobs, job{k, "service"}, job{k, "dependency"})
+	}
+	results := make([]kindsResult, len(jobs))
+	done := make(chan int, len(jobs))
+	for i, j := range jobs {
+		go func(i int, j job) {
+			defer func() { done <- i }()
+			res := kindsResult{Name: fmt.Sprintf("status/%s-stream-ended-with-%s", j.target, j.kind), Kind: j.kind, Target: j.target,
+				DeadlineS: dl.Seconds(), Streams: map[string]int{}}
+			w, err := newRealWorld(names("svc", 0, 5))
+			if err != nil {
+				res.Err = err.Error()
+				results[i] = res
+				return
+			}
+			defer w.close()
+			if !w.waitCarries(map[string]int{"config": 0, "endpoint": 0}, 15*time.Second) {
+				res.Err = "the first streams never carried the dependency set"
+				results[i] = res
+				return
+			}
+			w.srv.mu.Lock()
+			w.srv.killKind = j.kind
+			before := map[string]int{}
+			for _, scope := range []string{"config", "endpoint"} {
+				before[scope], _, _ = w.scopeLocked(scope)
+			}
+			w.srv.mu.Unlock()
+			start := time.Now()
+			if j.target == "service" {
+				w.srv.killSvcStreams()
+				// the set changes while the streams are gone
+				w.srv.push(names("svc", 5, 7), nil)
+			} else {
+				// the dependency stream ends; a reconnecting instance is told all its dependencies
+				w.srv.mu.Lock()
+				for _, n := range names("svc", 5, 7) {
+					w.srv.deps[n] = true
+				}
+				w.srv.mu.Unlock()
+				w.srv.depKill <- struct{}{}
+				before = map[string]int{"config": 0, "endpoint": 0}
+			}
+			wait := *dl
+			if *confirm > wait {
+				wait = *confirm
+			}
+			res.Recovered = w.waitCarries(before, wait)
+			res.ElapsedS = time.Since(start).Seconds()
+			w.srv.mu.Lock()
+			for _, scope := range []string{"config", "endpoint"} {
+				n, _, carried := w.scopeLocked(scope)
+				res.Streams[scope] = n
+				if scope == "config" {
+					for _, d := range keys(w.srv.deps) {
+						if !carried[d] || n <= before[scope] {
+							res.Missing = append(res.Missing, d)
+						}
+					}
+				}
+			}
+			w.srv.mu.Unlock()
+			results[i] = res
+		}(i, j)
+	}
+	for range jobs {
+		<-done
+	}
+	for _, r := range results {
+		if err := wr.Write(r); err != nil {
+			return err
+		}
+	}
+	return nil
+}
+
+func splitComma(s string) []string {
+	var out []string
+	cur := ""
+	for _, c := range s {
+		if c == ',' {
+			if cur != "" {
+				out = append(out, cur)
+			}
+			cur = ""
+		} else {
+			cur += string(c)
+		}
+	}
+	if cur != "" {
+		out = append(out, cur)
+	}
+	return out
+}
+
+// ---- the discovery server is not reachable when the proxy starts
+
+type lateResult struct {
+	Name      string         `json:"name"`
+	DelayS    float64        `json:"delay_s"`
+	DeadlineS float64        `json:"deadline_s"`  // counted from the moment the server listens
+	NewS      float64        `json:"configNew_s"` // how long config.New took
+	Recovered bool           `json:"recovered"`
+	ElapsedS  float64        `json:"elapsed_s"` // server listening -> streams carry the set (or give-up)
+	Streams   map[string]int `json:"streams"`
+	Err       string         `json:"err,omitempty"`
+}
+
+func lateOne(delay, deadline, confirm time.Duration) lateResult {
+	res := lateResult{Name: fmt.Sprintf("start/server-starts-listening-%.0fs-after-the-proxy", delay.Seconds()), DelayS: delay.Seconds(),
+		DeadlineS: deadline.Seconds(), Streams: map[string]int{}}
+	// reserve an address nothing listens on
+	l0, err := net.Listen("tcp", "127.0.0.1:0")
+	if err != nil {
+		res.Err = err.Error()
+		return res
+	}
+	addr := l0.Addr().String()
+	l0.Close()
+	b := &bootstrap.Bootstrap{
+		Admin:               &bootstrap.Admin{Bind: &common.Address{Ip: "127.0.0.1", Port: 1}},
+		Instance:            &common.Instance{Id: "verif", Belong: "verif"},
+		DynamicSourceConfig: &bootstrap.ConfigSource{Endpoint: addr},
+	}
+	t0 := time.Now()
+	if _, err := config.New(b); err != nil { // the proxy starts while the discovery server is down
+		res.Err = fmt.Sprintf("config.New: %v", err)
+		return res
+	}
+	res.NewS = time.Since(t0).Seconds()
+	if rem := delay - time.Since(t0); rem > 0 {
+		time.Sleep(rem)
+	}
+	srv := newE2EServer()
+	srv.accept = true
+	for _, d := range names("svc", 0, 5) {
+		srv.deps[d] = true
+	}
+	lis, err := net.Listen("tcp", addr)
+	if err != nil {
+		res.Err = fmt.Sprintf("cannot listen on the reserved address: %v", err)
+		return res
+	}
+	gs := grpc.NewServer(grpc.KeepaliveEnforcementPolicy(keepalive.EnforcementPolicy{MinTime: 5 * time.Second, PermitWithoutStream: true}))
+	api.RegisterDiscoveryServiceServer(gs, srv)
+	go gs.Serve(lis) //nolint:errcheck
+	defer gs.Stop()
+	w := &realWorld{srv: srv}
+	start := time.Now()
+	wait := deadline
+	if confirm > wait {
+		wait = confirm
+	}
+	res.Recovered = w.waitCarries(map[string]int{"config": 0, "endpoint": 0}, wait)
+	res.ElapsedS = time.Since(start).Seconds()
+	srv.mu.Lock()
+	for _, scope := range []string{"config", "endpoint"} {
+		res.Streams[scope] = len(srv.scopes[scope])
+	}
+	srv.mu.Unlock()
+	return res
+}
+
+func latestartCmd(args []string) error {
+	fs := flag.NewFlagSet("c16-latestart", flag.ContinueOnError)
+	out := fs.String("out", "", "results (ndjson)")
+	list := fs.String("delays", "7", "comma separated delays in seconds")
+	if err := fs.Parse(args); err != nil {
+		return err
+	}
+	wr, err := cli.NewNDJSONWriter(*out)
+	if err != nil {
+		return err
+	}
+	defer wr.Close()
+	var delays []time.Duration
+	for _, d := range splitComma(*list) {
+		var n int
+		fmt.Sscanf(d, "%d", &n)
+		delays = append(delays, time.Duration(n)*time.Second)
+	}
+	results := make([]lateResult, len(delays))
+	done := make(chan int, len(delays))
+	for i, d := range delays {
+		go func(i int, d time.Duration) {
+			// grpc's connection back-off grows with the outage (1 s, 1.6, 2.6, ... 120 s max): the next attempt
+			// may come as late as the outage has lasted
+			deadline := 15*time.Second + 2*d
+			results[i] = lateOne(d, deadline, deadline+15*time.Second)
+			done <- i
+		}(i, d)
+	}
+	for range delays {
+		<-done
+	}
+	for _, r := range results {
+		if err := wr.Write(r); err != nil {
+			return err
+		}
+	}
+	return nil
 }
